@@ -27,8 +27,10 @@ var (
 	tokEsc    = []string{"\\*", "\\_", "\\`", "\\[", "\\]", "\\(", "\\)", "\\<", "\\>", "\\\\", "\\&", "\\#", "\\!", "\\|", "\\~", "\\:", "\\\"", "\\'", "\\a", "\\ ", "\\\t", "\\\n", "\\\r\n"}
 	tokHTML   = []string{"<a>", "</a>", "<a href=\"x\">", "<b>", "<div>", "</div>", "<div", "<pre>", "</pre>", "<script>", "</script>", "<style>", "</style>", "<textarea>", "</textarea>", "<!--", "-->", "<!-- c -->", "<!-->", "<!--->", "<?", "?>", "<?php x ?>", "<!A", "<!DOCTYPE html>", "<![CDATA[", "]]>", "<x-y z='1' w=\"2\" v=3 u>", "<br/>", "<br />", "<img src=x onerror=alert(1)>", "<table>", "<td>", "<p>", "</p>", "<h1>", "<a\n", "<del>", "<1>", "< a>", "<a/ >", "<a b='", "<A HREF=X>", "</ a>", "<a></b>"}
 	tokEnt    = []string{"&amp;", "&lt;", "&gt;", "&quot;", "&copy;", "&nbsp;", "&ouml;", "&Dcaron;", "&ClockwiseContourIntegral;", "&ngE;", "&colon;", "&Tab;", "&NewLine;", "&lpar;", "&nosuch;", "&amp", "&#35;", "&#1234;", "&#0;", "&#065;", "&#992;", "&#x22;", "&#X22;", "&#xD06;", "&#xcab;", "&#x110000;", "&#xD800;", "&#99999999;", "&#9999999;", "&#;", "&#x;", "&#87654321;", "&#abc;", "&x;", "&#60;", "&#62;", "&#34;", "&#38;", "&#39;", "&nvlt;", "&nvgt;", "&LT;", "&GT;", "&AMP;", "&QUOT;", "&bne;", "&fjlig;", "&NotEqualTilde;", "&lt", "&Lt;", "&ThickSpace;", "&NewLine;x", "&Tab;x", "&nbsp", "&#x3C;", "&#x3e;", "&#x26;"}
-	tokURL    = []string{"http://a.b", "https://example.com/p?q=1&r=2", "http://a.b/(c)", "ftp://x.yz", "www.a.bc", "www.x.y.zz/q", "a@b.c", "foo+x@bar.example.com", "mailto:a@b.c", "javascript:alert(1)", "JaVaScRiPt:x", "vbscript:x", "file:///etc/passwd", "data:text/html,x", "data:image/png;base64,AA", "/url", "/uri \"title\"", "<http://a.b>", "<a@b.c>", "<javascript:x>", "<made-up:x>", "<http://a b>", "<>", "(/u 't')", "(<u v>)", "(/u \"t\")", "http://", "://", "x://y"}
-	tokAttr   = []string{"{#id}", "{.cls}", "{#i .c k=v}", "{k=\"v\"}", "{data-x=y}", "{onclick=\"x\"}", "{#a #b}", "{.a.b}", "{k='v'}", "{k=v w}", "{", "}", " {#x}", "{#é}", "{k=\"a&b<c>\"}", "{k=\"a\\\"b\"}", "{style=\"x\"}", "{a=1 a=2}", "{title=\"<\"}", "{#}", "{.}", "{=}", "{k=}", "{k=\"", "{#id .c}\n", "{class=a .b}", "{class=a class=b}", "{.a class=b}", "{class=a .b .c}", "{id=1}", "{id=1.5}", "{id=-2}", "{id=true}", "{id=null}", "{class=1 .x}", "{k=1e3}", "{id=[1]}", "{id={a=b}}", "{id=\"x\" id=2}", "# h {class=foo .bar}\n", "# h {id=1}\n", "h {id=0}\n===\n", "{k=false .c}", "{class=\"a\" class=b}",
+	tokURL    = []string{"http://a.b", "https://example.com/p?q=1&r=2", "http://a.b/(c)", "ftp://x.yz", "www.a.bc", "www.x.y.zz/q", "a@b.c", "foo+x@bar.example.com", "mailto:a@b.c", "javascript:alert(1)", "JaVaScRiPt:x", "vbscript:x", "file:///etc/passwd", "data:text/html,x", "data:image/png;base64,AA", "/url", "/uri \"title\"", "<http://a.b>", "<a@b.c>", "<javascript:x>", "<made-up:x>", "<http://a b>", "<>", "(/u 't')", "(<u v>)", "(/u \"t\")", "http://", "://", "x://y",
+		// the same media type in its allowed (;) and its dangerous (,) spelling, in either order
+		"data:image/png,x", "data:image/gif;base64,R0lG", "data:image/svg+xml,<svg>", "![a](data:image/png;base64,AAAA) ![b](data:image/png,x)", "![a](data:image/gif,x) ![b](data:image/gif;base64,R0lG)", "[a](data:image/webp,x) [b](data:image/webp;base64,UklG)", "<data:image/jpeg,x> ![j](data:image/jpeg;q)", "[a](JAVASCRIPT:x) [b](javascript:y) [c](https://x)"}
+	tokAttr = []string{"{#id}", "{.cls}", "{#i .c k=v}", "{k=\"v\"}", "{data-x=y}", "{onclick=\"x\"}", "{#a #b}", "{.a.b}", "{k='v'}", "{k=v w}", "{", "}", " {#x}", "{#é}", "{k=\"a&b<c>\"}", "{k=\"a\\\"b\"}", "{style=\"x\"}", "{a=1 a=2}", "{title=\"<\"}", "{#}", "{.}", "{=}", "{k=}", "{k=\"", "{#id .c}\n", "{class=a .b}", "{class=a class=b}", "{.a class=b}", "{class=a .b .c}", "{id=1}", "{id=1.5}", "{id=-2}", "{id=true}", "{id=null}", "{class=1 .x}", "{k=1e3}", "{id=[1]}", "{id={a=b}}", "{id=\"x\" id=2}", "# h {class=foo .bar}\n", "# h {id=1}\n", "h {id=0}\n===\n", "{k=false .c}", "{class=\"a\" class=b}",
 		// list / nested values whose string elements carry markup characters
 		"{title=[\"a\\\"b\"]}", "{data-x=[\"<\", \"&\", \"\\\">\"]}", "# h {title=[x, \"\\\"><script>alert(1)</script>\"]}\n", "{class=[\"a\\\"b\" c]}", "{data-y=[[\"\\\" o=\\\"1\"]]}",
 		"# h {title=[\"\\\" onmouseover=\\\"x\"]}\n", "{data-z=[1, true, \"q\\\"r\"]}", "{id=[\"a&b\"]}", "{title=[\"<b>\"] .c}", "## ## {#id}\n", "# # {.c}\n", "### b ### {#i .c}\n", "## ## {k=v}\n", "# #\n", "## ##\n", "#  # {#x}", "h {lang=[\"x\\\"y\", 2]}\n---\n"}
